@@ -97,6 +97,14 @@ def add_rules(r, model, grid, det):
             model["init"]["mk"] = 0
             rules.append({"type": "assignment", "target": "mk", "expr": ["num", 1.0], "freq": T})
             obs.append({"kind": "marker", "target": "mk", "T": T})
+        if inner and r.random() < 0.6:
+            # a non-idempotent scheduled rule: a snapshot of a reacting species taken at T must stay what it was at T
+            T = r.choice(inner)
+            a = r.choice(species)
+            model["species"].append("snap")
+            model["init"]["snap"] = 0
+            rules.append({"type": "assignment", "target": "snap", "expr": ["+", ["sp", a], ["num", 1.0]], "freq": T})
+            obs.append({"kind": "snapshot", "target": "snap", "T": T, "source": a})
         if r.random() < 0.6:
             c = netgen.nice(r.uniform(0.1, 4.0))
             model["species"].append("z")
@@ -203,6 +211,32 @@ def schedule_oracles(case, raw, stats):
                                   "detail": {"row": k, "time": grid[k], "T": T, "value": float(x[k])}})
                     break
             stats["marker_rows"] = stats.get("marker_rows", 0) + n
+        elif ob["kind"] == "snapshot":
+            T = ob["T"]
+            after = [k for k in range(n) if grid[k] > T]
+            for k in range(n):
+                if grid[k] < T and x[k] != 0.0:
+                    viols.append({"class": "scheduled_rule_fired_early", "signature": sig,
+                                  "detail": {"row": k, "time": grid[k], "T": T, "value": float(x[k])}})
+                    break
+            else:
+                if after:
+                    stats["snapshot_rows"] = stats.get("snapshot_rows", 0) + len(after)
+                    k0 = after[0]
+                    src = col.get(ob["source"])
+                    if x[k0] < 1.0:
+                        viols.append({"class": "scheduled_rule_not_in_force", "signature": sig,
+                                      "detail": {"row": k0, "time": grid[k0], "T": T, "value": float(x[k0])}})
+                    elif any(x[k] != x[k0] for k in after):
+                        kb = [k for k in after if x[k] != x[k0]][0]
+                        viols.append({"class": "scheduled_rule_fired_again_later", "signature": sig,
+                                      "detail": {"row": kb, "time": grid[kb], "T": T, "value_after_T": float(x[k0]),
+                                                 "value": float(x[kb]), "source_species_there": float(src[kb])}})
+                    elif case["c09_mode"] != "delay" and not case.get("script") and x[k0] != src[k0 - 1] + 1.0:
+                        # (the delay simulator may deliver queued products at T itself before the rule sees the state; scripted
+                        # zero waiting times put further events at exactly T, where the statement fixes no order)
+                        viols.append({"class": "scheduled_rule_value_not_from_its_time", "signature": sig,
+                                      "detail": {"T": T, "value": float(x[k0]), "source_at_T": float(src[k0 - 1])}})
         elif ob["kind"] == "ode":
             d = np.diff(x)[1:]
             want = ob["rate"] * dt
